@@ -6,9 +6,18 @@ func vElem(name string) *Element {
 	return &Element{E: MontgomeryDomainFieldElement(vLimbs(name))}
 }
 
+// vRecv is the receiver of the call under test: an element holding an arbitrary earlier value, or (flag zero_receivers, used when a
+// check embeds these contracts and its own code only ever passes fresh or aliased receivers) a freshly constructed one.
+func vRecv(name string) *Element {
+	if vFlag("zero_receivers") {
+		return New()
+	}
+	return vElem(name)
+}
+
 // op: 0 Add 1 Subtract 2 Multiply ; alias: 0 distinct, 1 e==u, 2 e==v, 3 u==v, 4 all same
 func vh_fe_op2(op, alias int) {
-	e := vElem("e")
+	e := vRecv("e")
 	u := vElem("u")
 	v := vElem("v")
 	switch alias {
@@ -42,7 +51,7 @@ func vh_fe_op2(op, alias int) {
 
 // op: 0 Negate 1 Square 2 Set ; alias: 0 distinct 1 e==u
 func vh_fe_op1(op, alias int) {
-	e := vElem("e")
+	e := vRecv("e")
 	u := vElem("u")
 	if alias == 1 {
 		u = e
@@ -84,7 +93,7 @@ func vh_fe_misc() {
 
 // alias: 0 distinct, 1 e==u, 2 e==v
 func vh_fe_cmove(alias int) {
-	e := vElem("e")
+	e := vRecv("e")
 	u := vElem("u")
 	v := vElem("v")
 	switch alias {
@@ -105,7 +114,7 @@ func vh_fe_cmove(alias int) {
 }
 
 func vh_fe_frombytes() {
-	e := vElem("e")
+	e := vRecv("e")
 	var in [32]byte
 	copy(in[:], vNondetBytes("in", 32))
 	r, red := e.FromBytesWithReduce(in)
@@ -115,7 +124,7 @@ func vh_fe_frombytes() {
 }
 
 func vh_fe_frombytes_noreduce(n int) {
-	e := vElem("e")
+	e := vRecv("e")
 	in := vNondetBytes("in", n)
 	vFreeze(in)
 	r := e.FromBytesNoReduce(in)
@@ -124,7 +133,7 @@ func vh_fe_frombytes_noreduce(n int) {
 }
 
 func vh_fe_h2f() {
-	e := vElem("e")
+	e := vRecv("e")
 	var in [48]byte
 	copy(in[:], vNondetBytes("in", 48))
 	r := e.HashToFieldElement(in)
@@ -150,7 +159,7 @@ func vh_reduce() {
 
 // alias: 0 receiver distinct from operands, 1 e==u, 2 e==v
 func vh_fe_sqrtratio(alias int) {
-	e := vElem("e")
+	e := vRecv("e")
 	u := vElem("u")
 	v := vElem("v")
 	switch alias {
@@ -175,7 +184,7 @@ func vh_fe_sqrtratio(alias int) {
 // alias: 0 z distinct from x, 1 z is x
 func vh_fe_invert(alias int) {
 	x := vElem("x")
-	z := vElem("z")
+	z := vRecv("z")
 	if alias == 1 {
 		z = x
 	}
@@ -188,7 +197,7 @@ func vh_fe_invert(alias int) {
 
 func vh_fe_exp(alias int) {
 	x := vElem("x")
-	z := vElem("z")
+	z := vRecv("z")
 	if alias == 1 {
 		z = x
 	}
